@@ -451,6 +451,11 @@ class Monitors(object):
                 continue
             voters = self.voters_of(p)
             have, tot, ok = self.majority(voters, pos, e[2])
+            if not ok and self.cfg.get('dynamic') and getattr(p, 'prev_members', None):
+                # the member set may have changed later in this very step (a queued membership request is
+                # processed after the commit computation of the same tick): the set the node held when
+                # the step began is the other candidate for "its member set at the commit"
+                have, tot, ok = self.majority(p.prev_members, pos, e[2])
             self.obs['commit_majority_checks'] += 1
             if not ok:
                 raise Violation('C04', 'commit_without_majority',
@@ -755,6 +760,8 @@ class Monitors(object):
             self.check_applies(p, a0, a1)
         p.last_commit = c1
         p.last_applied = a1
+        if self.cfg.get('dynamic'):
+            p.prev_members = self.voters_of(p)
         self.check_leader(p)
         if p.voter:
             self.note_ack_term(p, obj.raftCurrentTerm)
@@ -883,7 +890,8 @@ class Monitors(object):
         if not q['leader_seen'] and now > q['leader_deadline'] and judge:
             nv = [p for p in live if p.voter]
             if len(nv) > len(self.current_voters()) / 2.0:
-                raise Violation('C05', 'no_leader', 'no leader %.1fs after faults stopped (%d voters alive)' % (now - q['t0'], len(nv)))
+                raise Violation('C05', 'no_leader', 'no leader %.1fs after faults stopped (%d voters alive)' % (now - q['t0'], len(nv)),
+                                dial_impossible=self.dial_impossible())
         if q['stage'] == 'converge':
             # "stable" = one leader and equal applied indexes continuously for two maximal election
             # timeouts (every follower's timer has been reset by this leader since)
@@ -941,10 +949,27 @@ class Monitors(object):
         return {p.key: (getattr(p, 'rstate', 0), p.obj.raftCurrentTerm, p.obj.raftCommitIndex, p.obj.raftLastApplied,
                         p.journal.first_idx(), p.journal.last_idx()) for p in live}
 
+    def dial_impossible(self):
+        """Two live members that can never get connected: the one that has to dial (larger address) does
+        not know the other, or the one that is dialed does not know the dialer and rejects it."""
+        if not self.cfg.get('dynamic'):
+            return False
+        cur = set(self.current_voters())
+        for p in self.sim.live():
+            if p.voter and p.key in cur:
+                cur |= set(n.id for n in p.obj.otherNodes)      # members by a live member's (possibly uncommitted) configuration
+        live = [p for p in self.sim.live() if p.voter and p.key in cur]
+        for a in live:
+            for b in live:
+                if a.key > b.key and (b.key not in a.transport.nodes or a.key not in b.transport.nodes):
+                    # the dialer does not dial an unknown peer / the acceptor rejects an unknown dialer
+                    return True
+        return False
+
     def stuck_facts(self):
         live = self.sim.live()
         leaders = [p for p in live if p.voter and p.obj._isLeader()]
-        facts = {'leaders': len(leaders)}
+        facts = {'leaders': len(leaders), 'dial_impossible': self.dial_impossible()}
         if len(leaders) == 1:
             L = leaders[0]
             facts['follower_behind'] = any((p.journal.last_idx() or 0) < (L.journal.last_idx() or 0) for p in live if p is not L)
